@@ -312,6 +312,13 @@ def analyse(ck, fname, target, what):
                     loL, loR = 1, 1
             elif k == 'neutral':
                 pass
+            elif isinstance(test, ast.Compare) and len(test.ops) == 1 and isinstance(test.ops[0], (ast.Is, ast.IsNot)) \
+                    and const_value(test.comparators[0]) is None and isinstance(test.left, ast.Name) and test.left.id not in (sample, query):
+                # a test whether an intermediate result exists: says nothing about ranks; a path that takes the "missing"
+                # side and returns None signals "no distribution" like the empty sample does
+                missing = isinstance(test.ops[0], ast.Is) == pol
+                if missing:
+                    is_empty_path = True
             else:
                 unknown.append(u(test))
         o = ck.ob('C09-D2.ret.' + fname, f, 'return %s  [path: %s]' % (
